@@ -480,6 +480,7 @@ func (t *Collection) VisitItemsRandom(
 	if err != nil {
 		return err
 	}
+	defer t.store.ItemDecRef(t, si)
 	err = t.VisitItemsAscendEx(si.Key, false, v)
 	if err != nil {
 		return err
@@ -549,6 +550,7 @@ func (t *Collection) VisitItemsAscendBlockEx(
 	if err != nil {
 		return err
 	}
+	defer t.store.ItemDecRef(t, si)
 	err = t.VisitItemsAscendEx(si.Key, false, v)
 	if err != nil {
 		return err
@@ -616,6 +618,7 @@ func (t *Collection) Len() (l int64, err error) {
 	if err != nil || si == nil {
 		return // An empty collection has no minimum item.
 	}
+	defer t.store.ItemDecRef(t, si)
 	err = t.VisitItemsAscendEx(si.Key, false, visitor)
 	return
 }
